@@ -560,6 +560,45 @@ func execOp(line string) (res string) {
 			}
 		}
 		return "ok " + hx([]byte(*e.Signature)) + " " + hx([]byte(*e.PublicKey)) + " " + v1 + " " + v2 + " P=" + hx([]byte(e.Payload)) + " P2=" + p2
+	case "json.quote":
+		if !argc(1) {
+			return bad
+		}
+		js, err := json.Marshal(string(B(0)))
+		if err != nil {
+			return "err"
+		}
+		return "ok " + hx(js)
+	case "json.unquote":
+		if !argc(1) {
+			return bad
+		}
+		lit := B(0)
+		if len(lit) == 0 || lit[0] != '"' || lit[len(lit)-1] != '"' {
+			return bad // the model covers string literals only (no surrounding white space, no other JSON values)
+		}
+		var str string
+		if err := json.Unmarshal(lit, &str); err != nil {
+			return "err"
+		}
+		return "ok " + hx([]byte(str))
+	case "json.roundtrip":
+		if !argc(1) {
+			return bad
+		}
+		// through a struct field, as the envelope does
+		type box struct {
+			P string `json:"payload"`
+		}
+		js, err := json.Marshal(&box{P: string(B(0))})
+		if err != nil {
+			return "err"
+		}
+		var back box
+		if err := json.Unmarshal(js, &back); err != nil {
+			return "err"
+		}
+		return "ok " + hx([]byte(back.P))
 	case "rng.key":
 		if !argc(1) {
 			return bad
